@@ -118,6 +118,17 @@ var defects = []defect{
 		p[0] += "x"
 		c.m.Auth.CName.Parts = p
 	}},
+	{"cname-split-differently", "reject", func(c *cas) {
+		// the authenticator names {u, admin}, the ticket {"u/admin"}: equal only as "/"-joined strings
+		p := append([]string{}, c.m.Tkt.CName.Parts...)
+		c.m.Tkt.CName.Parts = []string{strings.Join(append(p, "admin"), "/")}
+		c.m.Auth.CName.Parts = append(p, "admin")
+	}},
+	{"cname-joined-differently", "reject", func(c *cas) {
+		p := append([]string{}, c.m.Tkt.CName.Parts...)
+		c.m.Auth.CName.Parts = []string{strings.Join(append(p, "admin"), "/")}
+		c.m.Tkt.CName.Parts = append(p, "admin")
+	}},
 	{"crealm-mismatch", "reject", func(c *cas) { c.m.Auth.CRealm = "EVIL.REALM" }},
 	{"ctime-future-outside-skew", "reject", func(c *cas) { c.m.Auth.CTime = c.now.Add(skew + time.Second) }},
 	{"ctime-past-outside-skew", "reject", func(c *cas) { c.m.Auth.CTime = c.now.Add(-skew - time.Second) }},
